@@ -573,37 +573,47 @@ Proof.
 Qed.
 
 (* ---- the context rule of do / be ---- *)
-Lemma verb_ctx_rule : forall explicit at_ctx,
-  verb_ctx explicit at_ctx =
+Lemma verb_ctx_rule : forall explicit at_ctx dflt,
+  verb_ctx explicit at_ctx dflt =
     match explicit with
-    | Some e => if Nat.eqb e NATIVE then ENDO else e          (* explicit nabe= wins *)
-    | None => if Nat.eqb at_ctx NATIVE then ENDO else at_ctx  (* else the at() context, native = endo *)
+    | Some e => if Nat.eqb e NATIVE then dflt else e          (* explicit nabe= wins, also nabe="endo" *)
+    | None => if Nat.eqb at_ctx NATIVE then dflt else at_ctx  (* else the at() context; native = the class default *)
     end.
-Proof. intros [e|] a; reflexivity. Qed.
+Proof. intros [e|] a d; reflexivity. Qed.
+
+(* an explicit context other than native is taken whatever the act class's own default is *)
+Lemma verb_ctx_explicit : forall e at_ctx dflt, e <> NATIVE -> verb_ctx (Some e) at_ctx dflt = e.
+Proof.
+  intros e a d H. unfold verb_ctx. destruct (Nat.eqb e NATIVE) eqn:E; auto. apply Nat.eqb_eq in E. contradiction.
+Qed.
+Lemma verb_ctx_at : forall at_ctx dflt, at_ctx <> NATIVE -> verb_ctx None at_ctx dflt = at_ctx.
+Proof.
+  intros a d H. unfold verb_ctx. destruct (Nat.eqb a NATIVE) eqn:E; auto. apply Nat.eqb_eq in E. contradiction.
+Qed.
 
 (* a statement files its act under the act's own context [S k] when nabe= says so, or when it is left out and the
-   current at() context is that context (or native, for an entry act) *)
+   current at() context is that context (or native, when the class default is that context) *)
 Definition well_declared (at_ctx : nat) (s : stmt) : Prop :=
   match s with
   | SAt _ => True
-  | SAct (Some e) k _ => e = S k
-  | SAct None k _ => at_ctx = S k \/ (at_ctx = NATIVE /\ S k = ENDO)
+  | SAct (Some e) _ k _ => e = S k
+  | SAct None d k _ => at_ctx = S k \/ (at_ctx = NATIVE /\ d = S k)
   end.
 
 Fixpoint all_well_declared (at_ctx : nat) (ss : list stmt) : Prop :=
   match ss with
   | [] => True
   | SAt c :: ss' => all_well_declared c ss'
-  | SAct e k j :: ss' => well_declared at_ctx (SAct e k j) /\ all_well_declared at_ctx ss'
+  | SAct e d k j :: ss' => well_declared at_ctx (SAct e d k j) /\ all_well_declared at_ctx ss'
   end.
 
 Theorem filed_as_declared : forall ss at_ctx,
   all_well_declared at_ctx ss ->
   Forall (fun f => fst f = S (fst (snd f))) (file_from at_ctx ss).
 Proof.
-  induction ss as [|[c|e k j] ss IH]; intros a H; simpl in *; auto.
+  induction ss as [|[c|e d k j] ss IH]; intros a H; simpl in *; auto.
   destruct H as [Hw H]. constructor; auto. simpl.
   destruct e as [e|]; simpl in Hw.
   - subst e. reflexivity.
-  - destruct Hw as [->|[-> Hk]]; [reflexivity|]. unfold verb_ctx. simpl. now rewrite Hk.
+  - destruct Hw as [->|[-> Hk]]; [reflexivity|]. unfold verb_ctx. simpl. exact Hk.
 Qed.
